@@ -164,9 +164,11 @@ Proof.
   rewrite <- (app_nil_r pp) at 2. now rewrite strip_prefix_app.
 Qed.
 
-(* ------------------------------------------------------------------ handles that a mutation below path p leaves alone *)
+(* ------------------------------------------------------------------ handles that a mutation below path p leaves alone:
+   every handle that is not STRICTLY below (tid, p) -- in another tree, on the path to p, p itself, or in a
+   different subtree of the same tree *)
 Definition above (tid : nat) (p : list nat) (g : hnd) : Prop :=
-  h_tid g <> tid \/ exists rest, p = h_path g ++ rest.
+  h_tid g <> tid \/ forall j rest, strip_prefix p (h_path g) <> Some (j :: rest).
 
 Lemma strip_prefix_shorter q rest : rest <> [] -> strip_prefix (q ++ rest) q = None.
 Proof.
@@ -174,33 +176,52 @@ Proof.
   - destruct rest; [congruence|reflexivity].
   - now rewrite Nat.eqb_refl.
 Qed.
+Lemma strip_prefix_app_inv pp q : forall path x, strip_prefix (pp ++ q) path = Some x -> strip_prefix pp path = Some (q ++ x).
+Proof.
+  induction pp as [|a pp IH]; intros path x H; cbn [app strip_prefix] in *.
+  - revert path H. induction q as [|b q IHq]; intros path H; cbn [strip_prefix app] in *; [congruence|].
+    destruct path as [|c path]; [discriminate|]. destruct (b =? c) eqn:E; [|discriminate]. apply Nat.eqb_eq in E. subst c.
+    f_equal. f_equal. specialize (IHq _ H). congruence.
+  - destruct path as [|c path]; [discriminate|]. destruct (a =? c); [|discriminate]. now apply IH.
+Qed.
 
 Lemma rebase_detach_above tid p i new g : above tid p g -> rebase_detach tid p i new g = g.
 Proof.
-  intros [H|[rest ->]]; [now apply rebase_detach_other|].
-  unfold rebase_detach. destruct (h_tid g =? tid); [|reflexivity].
-  destruct rest as [|x r].
-  - rewrite app_nil_r. rewrite <- (app_nil_r (h_path g)) at 2. now rewrite strip_prefix_app.
-  - now rewrite strip_prefix_shorter.
+  intros [H|H]; unfold rebase_detach.
+  - apply Nat.eqb_neq in H. now rewrite H.
+  - destruct (h_tid g =? tid); [|reflexivity]. destruct (strip_prefix p (h_path g)) as [[|j rest]|] eqn:E; try reflexivity.
+    exfalso. exact (H _ _ eq_refl).
 Qed.
 Lemma rebase_attach_above ptid pp idx ctid g : h_tid g <> ctid -> above ptid pp g ->
   rebase_attach ptid pp idx ctid g = g.
 Proof.
-  intros Hc H. unfold rebase_attach. apply Nat.eqb_neq in Hc. rewrite Hc.
-  destruct H as [H|[rest ->]].
+  intros Hc H. unfold rebase_attach. apply Nat.eqb_neq in Hc. rewrite Hc. destruct H as [H|H].
   - apply Nat.eqb_neq in H. now rewrite H.
-  - destruct (h_tid g =? ptid); [|reflexivity]. destruct rest as [|x r].
-    + rewrite app_nil_r. rewrite <- (app_nil_r (h_path g)) at 2. now rewrite strip_prefix_app.
-    + now rewrite strip_prefix_shorter.
+  - destruct (h_tid g =? ptid); [|reflexivity]. destruct (strip_prefix pp (h_path g)) as [[|j rest]|] eqn:E; try reflexivity.
+    exfalso. exact (H _ _ eq_refl).
 Qed.
 Lemma above_root tid p t' : above tid p (mk_hnd t' []).
-Proof. right. now exists p. Qed.
+Proof. right. intros j rest. cbn [h_path]. destruct p; cbn; discriminate. Qed.
 Lemma above_self tid p : above tid p (mk_hnd tid p).
-Proof. right. exists []. now rewrite app_nil_r. Qed.
+Proof. right. intros j rest. cbn [h_path]. rewrite <- (app_nil_r p) at 2. rewrite strip_prefix_app. discriminate. Qed.
 Lemma above_other tid p g : h_tid g <> tid -> above tid p g.
 Proof. now left. Qed.
+Lemma above_deeper tid p q g : above tid p g -> above tid (p ++ q) g.
+Proof.
+  intros [H|H]; [now left|]. right. intros j rest E. apply strip_prefix_app_inv in E.
+  destruct q as [|b q]; cbn [app] in E; eapply H; exact E.
+Qed.
 Lemma above_prefix tid q rest : above tid (q ++ rest) (mk_hnd tid q).
-Proof. right. now exists rest. Qed.
+Proof. apply above_deeper, above_self. Qed.
+Lemma strip_prefix_neq a b p q : a <> b -> strip_prefix (a :: p) (b :: q) = None.
+Proof. intros H. cbn. apply Nat.eqb_neq in H. now rewrite H. Qed.
+(* a handle into a different child subtree *)
+Lemma above_sibling tid p a b qa qb : a <> b -> above tid (p ++ a :: qa) (mk_hnd tid (p ++ b :: qb)).
+Proof.
+  intros H. right. intros j rest. cbn [h_path]. induction p as [|x p IH]; cbn [app].
+  - rewrite strip_prefix_neq by exact H. discriminate.
+  - cbn [strip_prefix]. now rewrite Nat.eqb_refl.
+Qed.
 
 (* a sibling in front of the detached one stays; one behind it moves down by one *)
 Lemma rebase_detach_before tid p i new j rest : j < i ->
@@ -1185,7 +1206,7 @@ Definition node_op (m : nat -> M unit) (N N' : rtree) : Prop :=
       length rs' = length rs /\
       nth_error ts' tid = Some (mk_slot true ri (upd_path T (pp ++ [i]) (fun _ => N'))) /\
       nth_error rs' r = Some (Some (mk_hnd tid (pp ++ [i]))) /\
-      (forall q g, q <> r -> nth_error rs q = Some (Some g) -> h_tid g < length ts -> above tid pp g ->
+      (forall q g, q <> r -> nth_error rs q = Some (Some g) -> h_tid g < length ts -> above tid (pp ++ [i]) g ->
                    nth_error rs' q = Some (Some g)).
 
 Lemma list5 {A} (l : list A) : length l = 5 -> exists x0 x1 x2 x3 x4, l = [x0; x1; x2; x3; x4].
@@ -1218,7 +1239,7 @@ Qed.
 
 (* ------------------------------------------------------------------ splicing a freshly built node *)
 Lemma above_extend tid pp i g : above tid pp g -> above tid (pp ++ [i]) g.
-Proof. intros [H|[rest ->]]; [now left|]. right. exists (rest ++ [i]). now rewrite app_assoc. Qed.
+Proof. apply above_deeper. Qed.
 
 Lemma firstn_map_app_len {A B} (F : A -> B) (l : list A) x : firstn (length l) (map F (l ++ [x])) = map F l.
 Proof. rewrite map_app. rewrite <- (map_length F l). apply firstn_app_len. Qed.
@@ -1282,7 +1303,7 @@ Proof.
   exists ts', (map (option_map F) rs). repeat split; auto.
   - apply map_length.
   - rewrite (nth_error_map_reg F _ _ _ Hr). rewrite A; [reflexivity|exact Hlt|apply above_self].
-  - intros q g _ Hq Hg Ha. rewrite (nth_error_map_reg F _ _ _ Hq). rewrite A; auto using above_extend.
+  - intros q g _ Hq Hg Ha. rewrite (nth_error_map_reg F _ _ _ Hq). rewrite A; auto.
 Qed.
 
 (* an operation that is one splice of freshly built elements into the node itself *)
@@ -1698,8 +1719,8 @@ Proof.
       * rewrite O3; [exact N2|lia|lia].
     + rewrite (A1 (mk_hnd tid pe)) by apply above_self. rewrite (A2 (mk_hnd tid pe)) by apply above_self.
       unfold pe. rewrite S3. cbn [h_tid h_path]. eexists. split; [exact N3|reflexivity].
-    + intros g Hg. rewrite A1 by (unfold pe; destruct Hg as [Hg|[rest ->]]; [now left|right; exists (rest ++ [length epre]); now rewrite app_assoc]).
-      rewrite A2 by (unfold pe; destruct Hg as [Hg|[rest ->]]; [now left|right; exists (rest ++ [length epre]); now rewrite app_assoc]).
+    + intros g Hg. rewrite A1 by (unfold pe; now apply above_deeper).
+      rewrite A2 by (unfold pe; now apply above_deeper).
       now apply A3.
   - (* alternatives remain *)
     inversion Hecs; subst ecs'; clear Hecs.
@@ -1718,8 +1739,8 @@ Proof.
     + exists (length ts1), (length pre1). split; [now rewrite S1, S2|exact N2].
     + rewrite (A1 (mk_hnd tid pe)) by apply above_self. rewrite (A2 (mk_hnd tid pe)) by apply above_self.
       cbn [h_tid h_path]. eexists. split; [exact T2|exact HG2].
-    + intros g Hg. rewrite A1 by (unfold pe; destruct Hg as [Hg|[rest ->]]; [now left|right; exists (rest ++ [length epre]); now rewrite app_assoc]).
-      apply A2. unfold pe; destruct Hg as [Hg|[rest ->]]; [now left|right; exists (rest ++ [length epre]); now rewrite app_assoc].
+    + intros g Hg. rewrite A1 by (unfold pe; now apply above_deeper).
+      apply A2. unfold pe; now apply above_deeper.
 Qed.
 
 (* [OGetEntry 0 i; OERemoveRel 0 j] on a constructor-built field *)
